@@ -42,6 +42,9 @@ def bank_cfg(rng, kind=None, max_filts=40, gammatone_scope_c07=False):
             hi = float(rate // 2)
     else:
         hi = None
+    if kind == "tri" and rng.random() < 0.1:
+        # inside the documented 1 Hz leeway above the Nyquist frequency: accepted, and the range ends at Nyquist
+        hi = rate / 2 + float(rng.choice([1.0, 0.5, float(rng.uniform(0, 1))]))
     cfg = {"name": kind, "num_filts": nf, "sampling_rate": rate, "low_hz": lo, "high_hz": hi}
     if kind != "fbank":
         cfg["scaling_function"] = sc
